@@ -31,7 +31,7 @@ RULE = (
     " Also: replacing the lifetime model object, parameters first given as integers, inadmissible parameters tried and refused, and after every set_prms the held parameters compared with a fresh model's."
 )
 ASSUMPTIONS = [
-    "finite input alphabets (5 driver versions, 9 parameter versions incl. integer, inadmissible and half-invalid ones, 3 lifetime-model swaps); full alphabet (21 operations) to depth 3 (thorough: 4 on the uneven grid with two labels), an 11-operation sub-alphabet to depth 4-5",
+    "finite input alphabets (5 driver versions, 9 parameter versions incl. integer, inadmissible and half-invalid ones, 3 lifetime-model swaps); full alphabet (21 operations) to depth 3 (thorough: 4 on the uneven grid with two labels), a 13-operation sub-alphabet to depth 4-5",
     "results compared with 1e-12 relative tolerance against a fresh object (same code, no history) given the current driver and the lifetime parameters the model holds at that moment (read through the public prms property)",
     "changing parameters by assigning attributes directly (not through set_prms) is outside the statement",
 ]
@@ -70,7 +70,7 @@ def ops_for(kind, dist, reduced=False):
     if reduced:  # the sub-alphabet used for the deeper searches
         ops = [dict(op="drv", v=k) for k in range(3)]
         if kind != "simple":
-            ops += [dict(op="prm", v=0), dict(op="prm", v=1), dict(op="prm", v="A"), dict(op="prm", v="N"), dict(op="prm", v="H"), dict(op="read", what="sf"), dict(op="swap-lm", v=1, how="ctor")]
+            ops += [dict(op="prm", v=0), dict(op="prm", v=1), dict(op="prm", v="A"), dict(op="prm", v="F"), dict(op="prm", v="N"), dict(op="prm", v="H"), dict(op="scribble-param"), dict(op="read", what="sf"), dict(op="swap-lm", v=1, how="ctor")]
         else:
             ops += [dict(op="drv2", v=k) for k in range(2)]
         ops.append(dict(op="compute"))
